@@ -6,6 +6,7 @@ Each sub-agent gets only its prompt (property text + worktree path): nothing fro
 """
 import json, os, subprocess, sys
 rnd = sys.argv[1]
+TWO = "--two" in sys.argv  # two independent changes per sub-agent, in _seed/a and _seed/b
 VERIF = os.path.dirname(os.path.dirname(os.path.abspath(__file__)))
 T = '''You are working in a private git worktree of the Python library CPJKU/partitura (symbolic music processing) at {wt}.
 Rules of engagement:
@@ -58,5 +59,15 @@ for p in props:
     if earlier:
         avoid = ("Earlier studies already covered changes at these places: " + " | ".join(earlier) +
                  ".\nPick a DIFFERENT function and a different kind of mistake (ideally in another of the mechanisms the property depends on, possibly in another file).\n")
+    if TWO:
+        for sub in ("a", "b"):
+            os.makedirs(os.path.join(wt, "_seed", sub), exist_ok=True)
+    text = T.format(wt=wt, pid=pid, title=p["title"], statement=p["statement"], quant=p["quantifier"]["text"], avoid=avoid)
+    if TWO:
+        text = text.replace("Your task: craft ONE realistic code change", "Your task: craft TWO INDEPENDENT realistic code changes (A and B, in two DIFFERENT functions, each of a different kind of mistake; each is applied to the clean tree on its own) — each a realistic code change")
+        text = text.replace("Deliverables, all inside " + wt + "/_seed/ :", "Deliverables: for change A everything inside " + wt + "/_seed/a/ and for change B inside " + wt + "/_seed/b/ (use these paths instead of _seed/ below; the demo of A is run as `_seed/a/demo.py`), each directory with:")
+        text = text.replace("Leave the patch APPLIED in the worktree when you finish.", "When you finish leave the worktree CLEAN (no patch applied: `git -C " + wt + " checkout -- partitura`); both patch.diff files must apply to the clean tree independently.")
+    open(f"/tmp/seedprompts/{pid}_r{rnd}.txt", "w").write(text)
+    continue
     open(f"/tmp/seedprompts/{pid}_r{rnd}.txt", "w").write(T.format(wt=wt, pid=pid, title=p["title"], statement=p["statement"], quant=p["quantifier"]["text"], avoid=avoid))
 print("prompts in /tmp/seedprompts, worktrees /tmp/w%s_C*" % rnd)
